@@ -69,6 +69,7 @@ def main():
     ap.add_argument("--none", action="store_true", help="run nothing, only merge / render")
     a = ap.parse_args()
     items = []
+    outside = {}
     for patch in sorted(glob.glob(os.path.join(VERIF, "mutants", "*", "*.patch"))):
         prop = os.path.basename(os.path.dirname(patch))
         items.append((prop, "mutants/" + prop + "/" + os.path.basename(patch), patch))
@@ -77,6 +78,9 @@ def main():
             m = json.load(f)
         d = os.path.dirname(meta)
         items.append((m["property"], "seeded/" + os.path.basename(d), os.path.join(d, "patch.diff")))
+        if os.path.exists(os.path.join(d, "OUTSIDE.md")):
+            # kept for the record, deliberately NOT caught: what it breaks is outside the property as stated
+            outside["seeded/" + os.path.basename(d)] = open(os.path.join(d, "OUTSIDE.md")).read().strip().splitlines()[0]
     rows = []
     for prop, name, patch in items:
         if a.props and prop not in a.props:
@@ -94,6 +98,9 @@ def main():
                 res2["status"] = "caught"
                 res2["tier"] = f"thorough ({a.escalate_budget:.0f} s budget); missed by quick"
                 res = res2
+        if name in outside and res["status"] == "MISSED":
+            res["status"] = "not caught, by decision"
+            res["tier"] = outside[name]
         rows.append((prop, name, res))
         print(prop, name, json.dumps(res), flush=True)
     # results are merged over runs (SENSITIVITY.json), so that changes added later can be run on their own
@@ -112,6 +119,10 @@ def main():
                     pass
     for prop, name, res in rows:
         merged[name] = {"prop": prop, "res": res}
+    for name, v in merged.items():
+        if name in outside and v["res"].get("status") == "MISSED":
+            v["res"]["status"] = "not caught, by decision"
+            v["res"]["tier"] = outside[name]
     present = {name for _, name, _ in items}
     merged = {k: v for k, v in merged.items() if k in present}
     if not a.no_write:
@@ -127,7 +138,7 @@ def main():
             for prop, name, res in rows:
                 f.write(f"| {prop} | {name} | {res['status']} | {res.get('tier', '')} | {', '.join(res.get('oracles', []))} | "
                         f"{res.get('min_ops', '')} | {res.get('wall_s', '')} |\n")
-    bad = [r for r in rows if r[2]["status"] != "caught"]
+    bad = [r for r in rows if r[2]["status"] not in ("caught", "not caught, by decision")]
     missing = sorted(present - set(merged)) if not a.no_write else []
     if missing:
         print("no result yet for:", ", ".join(missing))
